@@ -141,7 +141,11 @@ func genRegCase(r *rand.Rand) *regCase {
 			if ids == nil {
 				continue
 			}
-			c.Steps = append(c.Steps, regStep{Op: "add", IDs: ids})
+			op := "add"
+			if len(ids) >= 2 && r.IntN(3) == 0 {
+				op = "padd" // the ids are added by two registry users at the same time, half each
+			}
+			c.Steps = append(c.Steps, regStep{Op: op, IDs: ids})
 			for _, k := range ids {
 				present[k] = true
 			}
@@ -272,9 +276,29 @@ func runRegCase(c *regCase) (vs []Violation, s *sim.Sim) {
 				uu = append(uu, c.poolID(k))
 			}
 			switch st.Op {
-			case "add", "update", "updnl":
+			case "add", "update", "updnl", "padd":
 				var err error
 				switch st.Op {
+				case "padd":
+					// two users of the registry (two transactions) add disjoint ids concurrently
+					half := len(hs) / 2
+					name := fmt.Sprintf("padd%d", si)
+					var err2 error
+					other := hs[half:]
+					s.Spawn(name, 0, func(*sim.Task) {
+						r2, close2, e2 := e.registry(ctx)
+						if e2 != nil {
+							err2 = e2
+							return
+						}
+						defer close2()
+						err2 = r2.Add(ctx, e.payloadH(other))
+					})
+					err = reg.Add(ctx, e.payloadH(hs[:half]))
+					s.WaitDone(name)
+					if err == nil {
+						err = err2
+					}
 				case "add":
 					err = reg.Add(ctx, e.payloadH(hs))
 				case "update":
@@ -283,6 +307,11 @@ func runRegCase(c *regCase) (vs []Violation, s *sim.Sim) {
 					err = reg.UpdateNoLocks(ctx, false, e.payloadH(hs))
 				}
 				if err != nil {
+					if st.Op == "padd" {
+						// under contention an Add may give up (lock not acquired); the case ends here, what
+						// was added is not known to the model
+						return
+					}
 					add(st.Op+"-error", fmt.Sprintf("step %d %s%v failed on a fault-free disk: %v", si, st.Op, st.IDs, err))
 					return
 				}
@@ -329,6 +358,11 @@ func runRegCase(c *regCase) (vs []Violation, s *sim.Sim) {
 		closeReg()
 	})
 	s.Run()
+	if os.Getenv("VERIF_DUMPLOG") != "" {
+		for _, ev := range s.Log {
+			fmt.Fprintf(os.Stderr, "%5d %-8s %4d %-16s %s %s\n", ev.Seq, ev.Task, ev.Op, ev.Kind, strings.TrimPrefix(ev.Target, e.folder), ev.Fault)
+		}
+	}
 	for _, t := range s.Tasks() {
 		if t.Panic != nil {
 			add(panicClass(t.PanicSt), fmt.Sprintf("registry task panicked: %v", t.Panic))
@@ -488,7 +522,7 @@ func minimiseReg(run func(*regCase) ([]Violation, *sim.Sim)) func(Violation) Vio
 
 func init() {
 	Register(&CheckDef{ID: "C21", Level: "exploration",
-		Rule: "each evaluation = one sequential program of 4-28 registry calls (Add / Update / UpdateNoLocks / Remove / Get / lookup through a brand-new registry object with empty caches) through fs.NewRegistry on the simulated disk, over a pool of 4-150 ids crafted to collide: hash modulus 1-4 (or 250), ids confined to 1-3 blocks and 1-3 (or all 66) slots, so blocks fill up and entries overflow into segment files 2, 3, ...; compared call by call with a map model (last written handle for present ids, nothing for absent ones, removed ids never return), plus a raw walk of the segment files at the end (no id in two slots, on-disk set == model). distinct_nontrivial = distinct cases with >= 3 steps",
+		Rule: "each evaluation = one program of 4-28 registry calls (Add / Add of disjoint ids by two registry users at the same time under the seeded scheduler / Update / UpdateNoLocks / Remove / Get / lookup through a brand-new registry object with empty caches) through fs.NewRegistry on the simulated disk, over a pool of 4-150 ids crafted to collide: hash modulus 1-4 (or 250), ids confined to 1-3 blocks and 1-3 (or all 66) slots, so blocks fill up and entries overflow into segment files 2, 3, ...; compared call by call with a map model (last written handle for present ids, nothing for absent ones, removed ids never return), plus a raw walk of the segment files at the end (no id in two slots, on-disk set == model). distinct_nontrivial = distinct cases with >= 3 steps",
 		Units: func(tier string) int {
 			if tier == "thorough" {
 				return 1200
